@@ -53,3 +53,82 @@ Definition producer_shape : list mact := [MLock; MWait WhileSome; MSet SetMine; 
 Definition consumer_shape : list mact := [MLock; MWait WhileNotMine; MSet SetNone; MNotify].
 (* the consumer as it was before the repair of D1 (no notification after emptying the slot) *)
 Definition consumer_shape_silent : list mact := [MLock; MWait WhileNotMine; MSet SetNone].
+
+(* ------------------------------------------------------------------------------------------
+   Entry scripts (src/entry.rs): the body of `UntypedEntry::write` on its dynamic path, as actions
+   of the machine Ref/RwCell.v.  A lock guard bound by `let` is released at the end of the
+   enclosing block (RAII).  An unrecognised statement makes the extraction fail ([None]), so a tie
+   lemma never silently ignores new code inside the critical section. *)
+From AM Require Import Ref.RwCell.
+
+Fixpoint rw_block (fuel : nat) (b : list expr) : option script :=
+  match fuel with
+  | O => None
+  | S f =>
+      match b with
+      | [] => Some []
+      | ELetS _ (Some (EMethod (EField _ "lock") "write" [])) None :: r =>
+          option_map (fun k => AcqW :: app k [RelW]) (rw_block f r)
+      | ELetS _ (Some (EMethod (EField _ "lock") "read" [])) None :: r =>
+          option_map (fun k => AcqR :: app k [RelR]) (rw_block f r)
+      | ESemi (ECall (EPath ["swap_any"]) _) :: r =>
+          option_map (fun k => SwapWords 0 :: k) (rw_block f r)
+      | ESemi (EMethod (EField _ "reload") "increment" []) :: r =>
+          option_map (fun k => IncReload :: k) (rw_block f r)
+      | ESemi (EMethod (EField _ "reload_global") "store" _) :: r =>
+          option_map (fun k => Other :: k) (rw_block f r)
+      | ESemi (EMacro "assert" _) :: r => rw_block f r
+      | ESemi (EMacro "debug_assert" _) :: r => rw_block f r
+      | EBlock inner :: r =>
+          match rw_block f inner, rw_block f r with
+          | Some a, Some k => Some (app a k)
+          | _, _ => None
+          end
+      | ESemi (EReturn None) :: _ => Some []
+      | EIf (ELet (PTupleStruct ["Some"] [PIdent _ None]) (ERef (EField (EPath ["self"]) "dynamic"))) t None :: _ =>
+          (* the dynamic path; it must end by returning *)
+          match rev t with
+          | ESemi (EReturn None) :: _ => rw_block f t
+          | _ => None
+          end
+      | _ => None
+      end
+  end.
+
+Definition write_script (f : fn_def) : option script := rw_block 32 (fn_body f).
+
+(* `read` takes the read lock (when the entry is dynamic) before building the guard, and the guard
+   it returns owns that lock *)
+Definition read_wf (f : fn_def) : bool :=
+  match fn_body f with
+  | [ELetS (PIdent g None)
+       (Some (EMethod (EMethod (EField (EPath ["self"]) "dynamic") "as_ref" []) "map"
+                [EClosure [PIdent d None] (EMethod (EField (EPath [d']) "lock") "read" [])])) None;
+     EStruct ["AssetReadGuard"] fields] =>
+      String.eqb d d' &&
+      match fields with
+      | [("value", _); ("guard", EPath [g'])] => String.eqb g g'
+      | _ => false
+      end
+  | _ => false
+  end.
+
+(* `map` / `try_map` hand the lock guard over to the guard they return *)
+Definition keeps_guard (e : expr) : bool :=
+  match e with
+  | EStruct ["AssetReadGuard"] [("value", _); ("guard", EField (EPath ["this"]) "guard")] => true
+  | _ => false
+  end.
+
+Definition map_wf (f : fn_def) : bool :=
+  match fn_body f with
+  | [e] => keeps_guard e
+  | _ => false
+  end.
+
+Definition try_map_wf (f : fn_def) : bool :=
+  match fn_body f with
+  | [EMatch _ [(PTupleStruct ["Some"] [_], None, ECall (EPath ["Ok"]) [e]);
+               (_, None, ECall (EPath ["Err"]) [EPath ["this"]])]] => keeps_guard e
+  | _ => false
+  end.
